@@ -212,6 +212,94 @@ static void run_idx(std::map<std::string, std::string> &m, Fails &F, std::string
   }
 }
 
+// ---------------------------------------------------------------- reuse histories
+// base tables: 0 empty, 1 two rows no errors, 2 two rows with errors, 3 three rows with errors + unset flags, 4 one row no errors
+static void base_table(Table &t, int k) {
+  static const int N[5] = {0, 2, 2, 3, 1}, E[5] = {0, 0, 1, 1, 0};
+  static const char *FL[5] = {"", "io", "ui", "\0\0\0", "\0"};
+  t.SetHasYErr(E[k]);
+  t.resize(N[k]);
+  for (int i = 0; i < N[k]; i++) {
+    double x = XA[(k + i) % 7], y = XA[(2 * k + 2 * i + 3) % 7], e = EA[(k + i + 1) % 4];
+    if (E[k]) t.set(i, x, y, FL[k][i], e);
+    else t.set(i, x, y, FL[k][i]);
+  }
+}
+static std::string table_state(Table &t) {  // everything a user can observe
+  std::ostringstream o;
+  o << "n=" << t.size() << " yerr=" << (t.GetHasYErr() ? 1 : 0) << " nyerr=" << (t.GetHasYErr() ? t.yerr().size() : 0) << " |";
+  for (Index i = 0; i < t.size(); i++) {
+    o << " " << bsx::hexd(t.x(i)) << "," << bsx::hexd(t.y(i)) << "," << (t.flags(i) ? t.flags(i) : '0');
+    if (t.GetHasYErr() && i < t.yerr().size()) o << "," << bsx::hexd(t.yerr(i));
+  }
+  std::ostringstream sv;
+  sv << t;
+  o << " | saved: " << sv.str();
+  return o.str();
+}
+// fam=tre: ONE Table object: first = Load(base a) [op=0] or push_back of a's rows [op=1] or Load(a) then push_back [op=2]; then Load(base b).
+// operator>> starts with clear(): the second Load REPLACES the content, so the object must be indistinguishable from a fresh Table that loaded b.
+static void run_tre(std::map<std::string, std::string> &m, Fails &F, std::string &sig) {
+  int a = atoi(m["a"].c_str()), b = atoi(m["b"].c_str()), op = atoi(m["op"].c_str()), via = atoi(m["via"].c_str());
+  Table ta, tb;
+  base_table(ta, a);
+  base_table(tb, b);
+  std::string texta, textb;
+  { std::stringstream s; s << ta; texta = s.str(); }
+  { std::stringstream s; s << tb; textb = s.str(); }
+  if (via == 0) { ta.Save("a.tab"); tb.Save("b.tab"); }
+  auto load = [&](Table &t, const std::string &fn, const std::string &text) {
+    if (via == 0) t.Load(fn);
+    else { std::stringstream s(text); s >> t; }
+  };
+  Table fresh, used;
+  load(fresh, "b.tab", textb);
+  if (op == 0 || op == 2) load(used, "a.tab", texta);
+  if (op == 1 || op == 2) for (Index i = 0; i < ta.size(); i++) used.push_back(ta.x(i), ta.y(i), 'o');
+  load(used, "b.tab", textb);
+  std::string sf = table_state(fresh), su = table_state(used);
+  if (sf != su) {
+    bool rows_equal = sf.substr(sf.find('|'), sf.find(" | saved") - sf.find('|')) == su.substr(su.find('|'), su.find(" | saved") - su.find('|'));
+    std::string key = used.size() != fresh.size() ? "table-reuse-rows-not-replaced"
+                      : (used.GetHasYErr() != fresh.GetHasYErr() ? "table-reuse-yerr-flag-stale" : (rows_equal ? "table-reuse-saved-text" : "table-reuse-values"));
+    F.add(key, "Table that had " + std::string(op == 1 ? "rows pushed" : "loaded '" + texta.substr(0, texta.find('\n')) + "...'") + " then loads '" +
+                   textb.substr(0, textb.find('\n')) + "...': state {" + su.substr(0, 160) + "} but a fresh Table gives {" + sf.substr(0, 160) + "}");
+  }
+  sig = std::to_string(used.size()) + (used.GetHasYErr() ? "E" : "-");
+}
+// fam=mre: imcio_read_matrix / imcio_read_index / Table::Load of a dS file called twice in a row on different files (no object, but file-scope state would show)
+static void run_mre(std::map<std::string, std::string> &m, Fails &F, std::string &sig) {
+  static const int R[4] = {1, 2, 3, 2}, C[4] = {1, 3, 2, 2};
+  int a = atoi(m["a"].c_str()), b = atoi(m["b"].c_str());
+  Eigen::MatrixXd A = matof(R[a], C[a], 1), B = matof(R[b], C[b], 0);
+  csg::imcio_write_matrix("a.imc", A, nullptr);
+  csg::imcio_write_matrix("b.imc", B, nullptr);
+  Eigen::MatrixXd RA = csg::imcio_read_matrix("a.imc"), RB = csg::imcio_read_matrix("b.imc");
+  for (int w = 0; w < 2; w++) {
+    const Eigen::MatrixXd &E = w ? B : A, &G = w ? RB : RA;
+    bool ok = G.rows() == E.rows() && G.cols() == E.cols();
+    for (Index i = 0; ok && i < E.rows(); i++)
+      for (Index j = 0; j < E.cols(); j++)
+        if (!(std::fabs(G(i, j) - E(i, j)) <= sigtol(E(i, j), 8))) ok = false;
+    if (!ok) F.add(w ? "imc-matrix-second-read" : "imc-matrix-first-read", "matrix " + std::to_string(E.rows()) + "x" + std::to_string(E.cols()) + " read back differently when two files are read in a row");
+  }
+  // index files
+  std::vector<std::pair<std::string, tools::RangeParser>> wa, wb;
+  for (int i = 0; i <= a % 3; i++) { tools::RangeParser rp; rp.Add(1 + i, 10 + i, 1 + (a + i) % 2); wa.push_back({"A" + std::to_string(i), rp}); }
+  for (int i = 0; i <= b % 3; i++) { tools::RangeParser rp; rp.Add(2 + i, 9 + i, 1 + (b + i) % 3); wb.push_back({"B" + std::to_string(i), rp}); }
+  csg::imcio_write_index("a.idx", wa);
+  csg::imcio_write_index("b.idx", wb);
+  auto ra = csg::imcio_read_index("a.idx"), rb = csg::imcio_read_index("b.idx");
+  auto expand = [](tools::RangeParser &rp) { std::string s; int n = 0; for (Index v : rp) { s += std::to_string(v) + " "; if (++n > 100) break; } return s; };
+  if (rb.size() != wb.size()) F.add("imc-index-second-read", "second index file: wrote " + std::to_string(wb.size()) + " ranges, read " + std::to_string(rb.size()));
+  else
+    for (size_t i = 0; i < wb.size(); i++)
+      if (rb[i].first != wb[i].first || expand(rb[i].second) != expand(wb[i].second))
+        F.add("imc-index-second-read", "range " + std::to_string(i) + " of the second file read '" + rb[i].first + "' {" + expand(rb[i].second) + "} written '" + wb[i].first + "' {" + expand(wb[i].second) + "}");
+  if (ra.size() != wa.size()) F.add("imc-index-first-read", "first index file: wrote " + std::to_string(wa.size()) + ", read " + std::to_string(ra.size()));
+  sig = std::to_string(RB.rows()) + "x" + std::to_string(RB.cols()) + ":" + std::to_string(rb.size());
+}
+
 static std::vector<std::pair<std::string, std::string>> g_last;
 static bsx::Outcome run_case(const std::string &cas) {
   bsx::Outcome o;
@@ -223,6 +311,8 @@ static bsx::Outcome run_case(const std::string &cas) {
     else if (fam == "mat") run_mat(m, F, sig);
     else if (fam == "ds") run_ds(m, F, sig);
     else if (fam == "idx") run_idx(m, F, sig);
+    else if (fam == "tre") run_tre(m, F, sig);
+    else if (fam == "mre") run_mre(m, F, sig);
     else throw std::runtime_error("unknown family");
   } catch (const std::exception &e) {
     F.add(fam + "-unexpected-exception", std::string("exception: ") + e.what());
@@ -268,6 +358,8 @@ int main(int argc, char **argv) {
            "x every flag tuple over {i,o,u,unset} x error column on/off x comment {none, one line, multi-line with '#'} x {Save/Load, operator<< / >>}; "
            "IMC matrices: every shape 1x1.." + std::to_string(maxr) + "x" + std::to_string(maxc) + " x {ascending distinct, non-symmetric signed magnitudes, symmetric} x sub-selection lists {none,{0},{1,0},{0,1},{0,2},{2,0,1}}; "
            "dS vectors: rows 1.." + std::to_string(maxn) + " x patterns x lists; index files: every ordered tuple of 1..3 ranges over 6 range shapes (plain, strided, single, two blocks). "
+           "reuse histories: ONE Table object that loaded / had pushed / loaded+pushed base table a then loads base table b (5 base tables: empty, 2 rows, 2 rows+errors, 3 rows+errors+unset flags, 1 row; all 25 ordered pairs x {file, stream}) "
+           "must be indistinguishable (rows, flags, GetHasYErr, errors, saved text) from a fresh Table that loaded b (operator>> clears first = replace, not append); imcio_read_matrix / imcio_read_index on two files in a row (16 ordered pairs). "
            "Oracle: read == written to half a unit of the last printed digit (10 digits tables, 8 digits imc), flags equal (unset may return as default 'i'), names and expanded index lists equal. "
            "distinct_nontrivial = distinct (family, read-back signature, failure-key set)";
   std::vector<std::string> all;
@@ -311,6 +403,21 @@ int main(int argc, char **argv) {
       all.push_back(o.str());
     }
   }
+  // reuse histories
+  for (int a = 0; a < 5; a++)
+    for (int b = 0; b < 5; b++)
+      for (int op = 0; op < 3; op++)
+        for (int via = 0; via < 2; via++) {
+          std::ostringstream o;
+          o << "fam=tre;a=" << a << ";b=" << b << ";op=" << op << ";via=" << via;
+          all.push_back(o.str());
+        }
+  for (int a = 0; a < 4; a++)
+    for (int b = 0; b < 4; b++) {
+      std::ostringstream o;
+      o << "fam=mre;a=" << a << ";b=" << b;
+      all.push_back(o.str());
+    }
   std::vector<long long> mine;
   for (long long i = 0; i < (long long)all.size(); i++) if (a.mine(i)) mine.push_back(i);
   bsx::contained(
